@@ -87,7 +87,11 @@ func (v *SliceSchema) validate(ctx *p.SchemaCtx) {
 
 	if isZeroVal || refVal.Len() == 0 {
 		if v.defaultVal != nil {
-			refVal.Set(reflect.ValueOf(v.defaultVal))
+			// copy the default so that the validated value never shares memory with the schema
+			defVal := reflect.ValueOf(v.defaultVal)
+			cp := reflect.MakeSlice(refVal.Type(), defVal.Len(), defVal.Len())
+			reflect.Copy(cp, defVal)
+			refVal.Set(cp)
 		} else if v.required == nil {
 			return
 		} else {
